@@ -133,4 +133,23 @@ example : ((rwWriteHeader fakeWorld {} demoSt 200).1.rw.headersFlushed
     && ((rwWriteHeader fakeWorld {} demoSt 200).1.sink.snap.values (s "X-App") == [[1, 2]])) = true := by decide +kernel
 example : Pre (s "X-App") demoSt.sink.hdr demoSt := ⟨rfl, rfl, rfl, rfl⟩
 
+/-- **Trailers-only responses of gRPC and gRPC-Web clients**: when the response metadata already carries the end,
+    every trailer of that end (distinct keys) is in the response head under its own name with its values. -/
+theorem trailers_only_metadata_in_head (c : ClientForm) (hc : c = .grpc ∨ c = .grpcWeb) (rm : RespMeta) (sink : Sink)
+    (e : RespEnd) (he : rm.end = some e) (hd : e.trailers.Pairwise (fun a b => a.1 ≠ b.1))
+    (t : Bytes × List Bytes) (ht : t ∈ e.trailers) (k : Bytes) (hk : t.1 = canonKey k) :
+    (addResponseHeaders c rm sink).2.hdr.values k = t.2 := by
+  unfold addResponseHeaders
+  rcases hc with rfl | rfl
+  · have h1 : (ClientForm.grpc == ClientForm.grpc) = true := by decide
+    simp only [h1, if_true, he, Option.isNone_some, Bool.and_false, Bool.false_eq_true, if_false, writeEndToHeaders]
+    exact foldl_setRaw_values_mem e.trailers _ k t hd ht hk
+  · have h1 : (ClientForm.grpcWeb == ClientForm.grpc) = false := by decide
+    simp only [h1, Bool.false_and, Bool.false_eq_true, if_false, he, writeEndToHeaders]
+    exact foldl_setRaw_values_mem e.trailers _ k t hd ht hk
+
+/-- Non-vacuity: one application trailer of an error end, read off the head of a gRPC-Web response. -/
+example : (addResponseHeaders .grpcWeb { «end» := some { err := some { code := 5, msg := .text (s "gone"), details := 1 }, trailers := [(s "X-T", [[7]])] } } {}).2.hdr.values (s "X-T") = [[7]] := by
+  decide +kernel
+
 end Vanguard.C05
